@@ -45,10 +45,8 @@ class World:
                    r'^lsp_types::Url::to_file_path$': st_to_path, r'FileId::from_path': st_from_path, r'^lsp_project::map_diagnostic$': st_mapdiag})
         return st
 
-def _project_value(P, docs):
-    sfields = [f for f, _ in P.structs.get('Source', [])]
-    if sfields[:3] != ['file_id', 'data', 'library']: raise Unsupported('layout of Source: %r' % sfields)
-    srcs = VecV([Agg('()', [Agg('FileId', [Str(u[len('file://'):])]), Agg('Source', [Agg('FileId', [Str(u[len('file://'):])]), Str(t), none()])]) for u, t in docs.items()])
+def _project_value(P, docs, M=None):
+    srcs = VecV([Agg('()', [Agg('FileId', [Str(u[len('file://'):])]), LSP.new_source(M, P, u[len('file://'):], t)]) for u, t in docs.items()])
     return Ref(Cell(Agg('project::FileBackedProject', [srcs])))
 
 def _new_server(M, P, docs):
@@ -56,7 +54,7 @@ def _new_server(M, P, docs):
     every field the tree's LspProject has is initialised the way the tree initialises it"""
     k_new = [k for k in P.items if k[0] == 'ironplcc' and re.fullmatch(r'lsp_project::<impl at [^>]*>::new', k[1])]
     if len(k_new) != 1: raise Unsupported('LspProject::new: %d candidates' % len(k_new))
-    proj = M.call_fn(k_new[0], [_project_value(P, docs)])
+    proj = M.call_fn(k_new[0], [_project_value(P, docs, M)])
     # the server value comes from the tree's own constructor, so that every field the tree declares is initialised the way the tree does it
     k_srv = [k for k in P.items if k[0] == 'ironplcc' and re.fullmatch(r'lsp::<impl at [^>]*>::new', k[1])]
     if len(k_srv) != 1: raise Unsupported('LspServer::new: %d candidates' % len(k_srv))
@@ -277,7 +275,7 @@ def k5(ctx, kr):
     def st_read_dir(M, fr, c, a):
         d = text_of(M, a[0]); return ok(IterV([ok(Agg('DirEntry', [Str(d + '/a.st')])), ok(Agg('DirEntry', [Str(d + '/b.st')]))]))
     def st_try_from(M, fr, c, a):
-        fid = M.deref(a[0]); return ok(LSP.mkstruct(P, 'Source', file_id=deep_clone(fid), data=Str('text on disk'), library=none()))
+        fid = M.deref(a[0]); return ok(LSP.new_source(M, P, deep_clone(fid), 'text on disk'))
     def st_to_path(M, fr, c, a):
         t = text_of(M, a[0]); return ok(Str(t[len('file://'):])) if t and t.startswith('file:///') else err(UNIT)
     def st_fid(M_, fr, c, a):
@@ -291,7 +289,7 @@ def k5(ctx, kr):
     M = Machine(P, stubs=stubs, max_steps=20_000_000)
     def entry(M):
         st['is_link'] = M.fresh_bool('workspace_folder_is_a_symbolic_link'); st['canon_calls'] = 0
-        proj = M.call_fn(k_new[0], [_project_value(P, {})])
+        proj = M.call_fn(k_new[0], [_project_value(P, {}, M)])
         pr_ = Ref(Cell(proj))
         folder = LSP.mkstruct(P, 'WorkspaceFolder', **{'uri': Agg('Url', [Str('file://' + WS)]), 'name': Str('ws')})
         M.call_fn(k_init[0], [pr_, Ref(Cell(folder))])
